@@ -112,6 +112,11 @@ def gen_script(rng: random.Random, prog):
         if rng.random() < 0.4:
             cmds += [["P"], ["G"]]
         cmds += [_bp(rng, prog) for _ in range(rng.randint(2, 4))]
+        if rng.random() < 0.5:
+            # the same predicate registered a second time, one-shot: both are first satisfied by the same delivery
+            twin = list(rng.choice([c for c in cmds if c[0] in ("BT", "BC", "BK", "BX")] or [["BC", 2, 1]]))
+            twin[2] = 1
+            cmds.append(twin)
         for _ in range(rng.randint(3, 8)):
             r = rng.random()
             cmds.append(["G"] if r < 0.6 else ["S", rng.choice([1, 2, 3, 5])] if r < 0.85 else _bp(rng, prog))
@@ -227,7 +232,7 @@ class C04(core.Property):
     rule = ("a C01 or C02 program × an observation mode: plain / InMemoryTraceRecorder / enable_event_tracing() / control attached and "
             "driven by a generated script of pause, run, step(n), resume, time / count / event-type / metric (entity attribute level, "
             "inflight, _crashed or a missing one, all six operators, thresholds at and around 0 so that conditions first hold at a falsy "
-            "value) / condition (events_processed == n) breakpoints (one-shot or not, registered from the script or by an on_event "
+            "value) / condition (events_processed == n) breakpoints (one-shot or not, one of several armed predicates registered twice in half of those scripts, registered from the script or by an on_event "
             "hook while the loop is running, "
             "several armed at once), clear, pausing on_event hook, reset() between rounds (after pause / step / breakpoint rounds, "
             "with and without stateless entities), sim.schedule() of an event from outside before a run and while it is paused "
@@ -256,7 +261,7 @@ class C04(core.Property):
         prog["mode"] = mode
         if mode != "reset-src" and rng.random() < 0.25:
             # the run starts at a start_time other than the epoch (reset() must go back to it), horizon as end_time= or duration=
-            shift_start(rng, prog)
+            shift_start(rng, prog, huge=False)   # see DESIGN 13.6: the 2**53+ start palette is not enabled here
         if mode == "ctl":
             if rng.random() < 0.5:
                 add_levels(rng, prog)
